@@ -66,6 +66,9 @@ def compare_text(ctx, text, tag, expected=None, oracle=None):
             rep.violate("parser-fails-on-grammar-line(with valid_addr_range)", dict(case, config=cfg), {"addr_mnemonic": exp2},
                         {"outcome": s2}, model_agrees_with_spec=(m2[0] == "ok"))
         rep.dist["with-valid_addr_range"] += 1
+    if oracle is not None and s[0] != "ok":
+        rep.violate("parser-fails-on-objdump-line", case, {"addr_mnemonic": oracle[:50]}, {"outcome": s},
+                    model_agrees_with_spec=(m[0] == "ok"))
     if oracle is not None and s[0] == "ok":
         dec = gen.decode_stream(s[1])
         got = [(a, mn) for a, mn, _ in dec] if dec is not None else None
@@ -133,6 +136,12 @@ def run(ctx, factor):
             oracle.append(("%x" % addr, rest.split(" ")[0]))
             addr += nb
         compare_text(ctx, "\n".join(lines) + "\n", "data16-lines", oracle=oracle)
+    # AVX-512 operand decorations (`0x40(%rdi){1to16}`, `%zmm1{%k1}{z}`, `(bad){%k3}`, `{rn-sae}`), segment overrides, x87
+    # stack registers: outside the LineSpec grammar, printed by objdump all the same - one record per line, never a failure
+    from props import c10
+    for _ in range(ctx.budget(60, 2000) * factor):
+        text, oracle = c10.decorated_listing(g, with_oracle=True)
+        compare_text(ctx, text, "avx512-decorated-operands", oracle=oracle)
     for _ in range(ctx.budget(6, 400) * factor):
         objdump_case(ctx, g.int(40, 400))
     files = sorted(glob.glob(os.path.join(impl.REPO, "tests", "assembly", "*.s")))
